@@ -65,13 +65,12 @@ def rectangle_model(ctx, env):
     s0, s1 = elems(ctx, env.get('shift', (0, 0)))
     aa = env.get('antialias', True)
     angle = env.get('angle', 0)
-    if not (S.is_concrete(angle) and S.is_zero(angle)):
-        raise S.Unsupported('rectangle model: rotated')
     half = S.frac(0.5)
+    mr, mc = H.mesh_model(ctx, {'shape': (nr, nc), 'shift': (s0, s1), 'angle': angle})
 
     def fn(idx):
-        rr = S.sub(S.sub(idx[0], S.floordiv(nr, 2)), s0)
-        cc = S.sub(S.sub(idx[1], S.floordiv(nc, 2)), s1)
+        rr = mr.at(idx)
+        cc = mc.at(idx)
         wc = clip01(S.sub(S.add(half, S.truediv(width, 2)), S.abs_(cc)))
         hc = clip01(S.sub(S.add(half, S.truediv(height, 2)), S.abs_(rr)))
         v = S.min_(S.min_(1, wc), hc)
@@ -86,7 +85,8 @@ c = contract('lentil.shape.rectangle', level='I')
 
 def _rect_params(ctx):
     return {'shape': shape2(ctx, 'shape'), 'width': ctx.fresh_real('width'), 'height': ctx.fresh_real('height'),
-            'shift': (ctx.fresh_real('shift0'), ctx.fresh_real('shift1')), 'angle': 0,
+            'shift': (ctx.fresh_real('shift0'), ctx.fresh_real('shift1')),
+            'angle': 0 if ctx.branch(ctx.fresh_bool('angle_is_zero')) else ctx.fresh_real('angle'),
             'antialias': ctx.branch(ctx.fresh_bool('antialias'))}
 
 
@@ -214,6 +214,11 @@ def _rect_env(ctx):
             'angle': 0, 'antialias': ctx.branch(ctx.fresh_bool('antialias'))}
 
 
+def _rect_rot_env(ctx):
+    return {'shape': shape2(ctx, 'shape'), 'width': ctx.fresh_real('width'), 'height': ctx.fresh_real('height'),
+            'angle': ctx.fresh_real('angle'), 'antialias': ctx.branch(ctx.fresh_bool('antialias'))}
+
+
 def _hex_env(ctx):
     return {'shape': shape2(ctx, 'shape'), 'radius': ctx.fresh_real('radius'),
             'rotate': ctx.branch(ctx.fresh_bool('rotate')), 'antialias': ctx.branch(ctx.fresh_bool('antialias'))}
@@ -223,6 +228,8 @@ LEMMAS = []
 for _nm, _model, _mk in (('shape.circle', circle_model, _circle_env), ('shape.rectangle', rectangle_model, _rect_env)):
     _t, _h, _m = _sym_lemmas(_model, _mk, _nm)
     LEMMAS += [(_nm + '::integer_translation', _t), (_nm + '::half_turn', _h), (_nm + '::mirror', _m)]
+_t, _h, _m = _sym_lemmas(rectangle_model, _rect_rot_env, 'shape.rectangle[rotated]')
+LEMMAS += [('shape.rectangle[rotated]::integer_translation', _t), ('shape.rectangle[rotated]::half_turn', _h)]
 _t, _h, _m = _sym_lemmas(hexagon_model, _hex_env, 'shape.hexagon')
 
 
